@@ -26,6 +26,9 @@ def _frac(tok):
 def compare(op, impl, model):
     kind = op.split(" ", 1)[0]
     if kind not in ("ssp", "est"):
+        # an all-zero output equals the all-zero output of a fresh object whatever was stale
+        if impl == "ok zero":
+            return model in ("ok fresh", "ok stale")
         return impl == model
     try:
         val, mag = [_frac(t) for t in model.split()]
